@@ -3,14 +3,15 @@ import LentilVerif.Lemmas.ZernikeTables
 import LentilVerif.Lemmas.ZernikeAlg
 import LentilVerif.Lemmas.ZernikeRow
 import LentilVerif.Lemmas.ZernikeAngular
+import LentilVerif.Lemmas.ZernikeOrtho
 /-! # C11 — Zernike modes are the Noll-ordered orthonormal polynomials
 
 Property theorems only. Model: `Model/Zernike.lean` (hand-written, tied to `lentil/zernike.py` by the correspondence harness
 tools/harness/c11.py for every j ≤ 861, every valid (n, m) with n ≤ 40, mode values on dyadic nodes and random masks).
 
-Not proved (named in the harness `UNPROVEN`): `|Z_j| ≤ 1` without normalisation; the radial Gram table stops at n = 20; the
-factorisation of the disk integral of a product of modes into (radial integral) × (angular integral) is not formalised — the
-radial (`radial_gram`) and angular (`normalisation_unit_mean_square`, `azimuthal_orthogonality`) factors are proved separately. -/
+Not proved (named in the harness `UNPROVEN`): `|Z_j| ≤ 1` without normalisation; orthonormality (`zernike_orthonormal`) stops at
+n = 20 (the exact radial table) and is stated for the polar-coordinate iterated integral — that this is the area mean over the disk
+(polar change of variables) is not formalised. -/
 namespace Lentil.C11
 open Lentil Finset
 
@@ -188,6 +189,54 @@ theorem azimuthal_orthogonality (m m' : ℕ) :
     (m ≠ m' → ∫ θ in (0 : ℝ)..(2 * Real.pi), Real.sin ((m : ℝ) * θ) * Real.sin ((m' : ℝ) * θ) = 0) ∧
     (∫ θ in (0 : ℝ)..(2 * Real.pi), Real.cos ((m : ℝ) * θ) * Real.sin ((m' : ℝ) * θ) = 0) := angular_cross m m'
 
+/-- **the radial Gram entries are the radial integrals of the model's polynomials**: `gramQ n n' m = ∫₀¹ R_n^m(ρ) R_n'^m(ρ) ρ dρ`
+with `R = radialEval` (the function `zernAt` evaluates), hence by `radial_gram` the integral is `δ_{nn'}/(2(n+1))` for n, n' ≤ 20 -/
+theorem radial_gram_integral (n n' m : Nat) (hn : n ≤ 20) (hn' : n' ≤ 20) (hm : m ≤ n) (hm' : m ≤ n')
+    (h : (n - m) % 2 = 0) (h' : (n' - m) % 2 = 0) :
+    ∫ x in (0 : ℝ)..1, radialEval n m x * radialEval n' m x * x = if n = n' then 1 / (2 * ((n : ℝ) + 1)) else 0 := by
+  rw [← gramQ_eq_integral n n' m h h', radial_gram n n' m hn hn' hm hm' h h']
+  split_ifs
+  · push_cast; ring
+  · simp
+
+/-- **the model's mode is normalisation · radial · azimuthal, with the squared normalisation `normSq`**: over ℝ (real √, cos, sin),
+inside the mask, `zernAt j = N · R_n^{|m|}(ρ) · A_m(θ)` with `N² = normSq n m` (n+1 for m = 0, 2(n+1) otherwise) and
+`A_m = 1, cos(mθ), sin(mθ)` for m = 0, m > 0, m < 0 — this binds `normalisation_constants`/`normalisation_unit_mean_square` to `zernAt` -/
+theorem mode_factorisation (j : Nat) (ρ θ : ℝ) :
+    zReal j ρ θ = normFac (nollN j) (nollM j) * radialEval (nollN j) (nollM j).natAbs ρ * azim (nollM j) θ ∧
+    normFac (nollN j) (nollM j) ^ 2 = ((normSq (nollN j) (nollM j) : ℕ) : ℝ) :=
+  ⟨zReal_factor j ρ θ, normFac_sq _ _⟩
+
+/-- **orthonormality of the model's modes over the unit disk** (all pairs among the first 231 modes, n ≤ 20): the polar-coordinate
+mean `(1/π) ∫₀^{2π} ∫₀¹ Z_j Z_j' ρ dρ dθ` of the product of two normalised modes of the model is 1 if j = j' and 0 otherwise.
+(What is not formalised: that this iterated polar integral is the area mean over the disk — the polar change of variables.) -/
+theorem zernike_orthonormal (j j' : Nat) (hj : 1 ≤ j) (hj' : 1 ≤ j') (hn : nollN j ≤ 20) (hn' : nollN j' ≤ 20) :
+    diskMean (fun ρ θ => zReal j ρ θ * zReal j' ρ θ) = if j = j' then 1 else 0 := by
+  rw [diskMean_modes, azim_integral]
+  obtain ⟨v1, v2, _, _, _, _⟩ := noll_valid j hj
+  obtain ⟨w1, w2, _, _, _, _⟩ := noll_valid j' hj'
+  have hpi : Real.pi ≠ 0 := Real.pi_ne_zero
+  by_cases hm : nollM j = nollM j'
+  · rw [if_pos hm]
+    have hab : (nollM j).natAbs = (nollM j').natAbs := by rw [hm]
+    rw [← hab, radial_gram_integral (nollN j) (nollN j') (nollM j).natAbs hn hn' v1 (hab ▸ w1) v2 (hab ▸ w2)]
+    by_cases hnn : nollN j = nollN j'
+    · have hjj : j = j' := by
+        have a := noll_bijective.1 j hj
+        have b := noll_bijective.1 j' hj'
+        rw [hnn, hm] at a; exact a.symm.trans b
+      subst hjj
+      simp only [if_true]
+      have hsq := normFac_sq (nollN j) (nollM j)
+      have hN : (2 * ((nollN j : ℝ) + 1)) ≠ 0 := by positivity
+      rw [← sq, hsq]
+      unfold normSq
+      split_ifs <;> (push_cast; field_simp)
+    · have hjne : j ≠ j' := fun e => hnn (by rw [e])
+      simp [hnn, hjne]
+  · have hjne : j ≠ j' := fun e => hm (by rw [e])
+    simp [hm, hjne]
+
 /-! ## coordinates: centroid origin, unit radius at the farthest sample, support only -/
 
 /-- **the default polar origin is the centroid of the mask**, whatever the parity of the array size or the position of the mask:
@@ -248,14 +297,32 @@ theorem rho_one_at_farthest {K : Type} [Field K] [LinearOrder K] [IsStrictOrdere
       (List.mem_flatMap.2 ⟨i, List.mem_range.2 (by omega), List.mem_map.2 ⟨j, List.mem_range.2 (by omega), by rw [if_pos hmask]⟩⟩)
     exact (div_le_one hpos).2 hge
 
-/-- **values are zero outside the mask**, and the piston mode (j = 1) is the mask itself -/
+/-- … and that sample really is a *farthest* one: if `sqrt` reflects order on non-negative arguments (as the real square root does),
+a masked sample with ρ = 1 has the largest squared distance `rr² + cc²` from the origin among all masked samples -/
+theorem rho_one_is_farthest {K : Type} [Field K] [LinearOrder K] [IsStrictOrderedRing K] (sqrt : K → K) (mask : Arr Bool)
+    (s : K × K) (hpos : 0 < zRmax sqrt mask s)
+    (hsqrt : ∀ a b : K, 0 ≤ a → 0 ≤ b → sqrt a ≤ sqrt b → a ≤ b)
+    (i j : Nat) (hi : (i : Int) < mask.s0) (hj : (j : Int) < mask.s1) (hmask : mask.get i j = true)
+    (hone : zRho sqrt mask s i j = 1)
+    (i' j' : Nat) (hi' : (i' : Int) < mask.s0) (hj' : (j' : Int) < mask.s1) (hmask' : mask.get i' j' = true) :
+    zRR mask s i' * zRR mask s i' + zCC mask s j' * zCC mask s j' ≤ zRR mask s i * zRR mask s i + zCC mask s j * zCC mask s j := by
+  have h1 := (rho_one_at_farthest sqrt mask s hpos).2 i' j' hi' hj' hmask'
+  unfold zRho at h1 hone
+  have e : zRad sqrt mask s i j = zRmax sqrt mask s := by
+    have := (div_eq_one_iff_eq hpos.ne').1 hone; exact this
+  have le : zRad sqrt mask s i' j' ≤ zRad sqrt mask s i j := by rw [e]; exact (div_le_one hpos).1 h1
+  unfold zRad at le
+  exact hsqrt _ _ (add_nonneg (mul_self_nonneg _) (mul_self_nonneg _)) (add_nonneg (mul_self_nonneg _) (mul_self_nonneg _)) le
+
+/-- **values are zero outside the mask** (in a field; the model multiplies by the mask factor 0 as the code does, so at `Float` this needs
+finite radial/azimuthal factors — see the known finding KF-C11-nan-outside-mask), and the piston mode (j = 1) is the mask itself -/
 theorem zero_outside_mask {K : Type} [Field K] (sqrtN : Nat → K) (cos sin : K → K) (j : Nat) (normalize : Bool) (rho theta : K) :
     zernAt sqrtN cos sin j normalize rho theta false = 0 ∧ zernAt sqrtN cos sin 1 normalize rho theta true = 1 := by
   constructor
-  · simp [zernAt]
+  · unfold zernAt zernCore; simp only [Bool.false_eq_true, if_false, mul_zero]; split_ifs <;> rfl
   · have h1 : nollN 1 = 0 := by decide
     have h2 : nollM 1 = 0 := by decide
-    simp [zernAt, h1, h2]
+    simp [zernAt, zernCore, h1, h2]
 
 /-- **the mask enters only through its support**: two weight arrays of the same shape that are non-zero at the same samples give
 the same Boolean mask, hence the same moments, origin, coordinates and mode values (all of which are functions of that mask) -/
